@@ -740,6 +740,45 @@ def shared_stores(tree):
     return sorted(set(out))
 
 
+def awaits_while_tx_open(tree):
+    """`await` expressions between `rx, tx = Pipe(..)` and the parent's `tx.close()`: while a coroutine is suspended there, the other
+    invocations run — a child they fork inherits this invocation's write end, and the EOF this invocation relies on when its own child
+    dies without a result does not come before those children have exited"""
+    out = []
+    for q, fn in _functions(tree):
+        nodes = list(_own_nodes(fn))
+        pipes = [n for n in nodes if isinstance(n, ast.Assign) and isinstance(n.value, ast.Call) and _name(n.value.func) == 'Pipe'
+                 and len(n.targets) == 1 and isinstance(n.targets[0], ast.Tuple) and len(n.targets[0].elts) == 2
+                 and all(isinstance(e, ast.Name) for e in n.targets[0].elts)]
+        for pa in pipes:
+            tx = pa.targets[0].elts[1].id
+            pos = lambda n: (n.lineno, n.col_offset)
+            closes = sorted(pos(n) for n in nodes if isinstance(n, ast.Expr) and _is_method_call(n.value, tx, 'close') and pos(n) > pos(pa))
+            if not closes:
+                out.append(f'{q}: {tx}.close() is missing')
+                continue
+            for n in nodes:
+                if isinstance(n, (ast.Await, ast.AsyncWith, ast.AsyncFor, ast.Yield, ast.YieldFrom)) and pos(pa) < pos(n) < closes[0]:
+                    out.append(f'{q}: {ast.unparse(n)[:48]}')
+    return sorted(set(out))
+
+
+EXECUTOR_CALLS = {'run_in_executor', 'to_thread', 'set_default_executor', 'submit'}
+
+
+def shared_executors(tree):
+    """work handed to a thread / process pool: the loop's default executor has min(32, cpu_count + 4) workers for ALL invocations — whatever
+    occupies a worker for as long as an invocation is pending bounds the number of invocations that can make progress at once"""
+    out = []
+    for q, fn in _functions(tree):
+        for n in _own_nodes(fn):
+            if isinstance(n, ast.Call):
+                f = n.func.attr if isinstance(n.func, ast.Attribute) else _name(n.func)
+                if f in EXECUTOR_CALLS:
+                    out.append(f'{q}: {ast.unparse(n)[:48]}')
+    return sorted(set(out))
+
+
 def lean_str_list(xs):
     return '[' + ', '.join(lean_str(x) for x in xs) + ']'
 
@@ -768,6 +807,15 @@ def bodyGuards : List String := {lean_str_list(body_guards(tree))}
 /-- `global` / `nonlocal` declarations, stores through objects that are not locals of the function, non-constant defaults,
     decorators other than `@wraps(func)`: ways for a function to keep something beyond one activation -/
 def sharedStores : List String := {lean_str_list(shared_stores(tree))}
+
+/-- calls that hand work to a thread / process pool (`loop.run_in_executor`, `asyncio.to_thread`, `pool.submit`, …): a pool is shared by
+    all invocations and bounded — the loop's default executor has min(32, cpu_count + 4) workers -/
+def sharedExecutors : List String := {lean_str_list(shared_executors(tree))}
+
+/-- suspension points (`await`, `async with`, `async for`) between `rx, tx = Pipe(..)` and the parent's `tx.close()`: while the coroutine is
+    suspended there other invocations fork their children, which inherit this invocation's write end (the model gives the write end to
+    the invocation's own child only: `start` copies `parentTx` to `childTx` of the same invocation) -/
+def awaitsWhileWriteEndOpen : List String := {lean_str_list(awaits_while_tx_open(tree))}
 
 end PedVerif.Gen.SubprocModule
 '''
